@@ -722,3 +722,275 @@ def _(i, st, a, c): return _fork3(i, st, _bigval(i, st, a[0]), ('Less', 'Equal',
 # num_bigint: determinant.sign() -> Sign {Minus, NoSign, Plus}
 @model(r'BigInt::sign')
 def _(i, st, a, c): return _fork3(i, st, _bigval(i, st, a[0]), ('Minus', 'NoSign', 'Plus'))
+
+
+# ----------------------------------------------------------------------------- std iterators as ordered lists
+# Iterator adaptors are modelled positionally and order-preserving (what std documents): a ListIter holds the
+# remaining items; Map/FilterMap/Zip/Enumerate/Flatten are evaluated eagerly when they are built from ListIters.
+
+def list_iter(items):
+    return Agg('ListIter', tuple(items))
+
+
+def _as_list(i, st, v):
+    if isinstance(v, Ref):
+        v = i.deref_read(st, v)
+    if isinstance(v, Agg) and v.tag == 'ListIter':
+        return list(v.items)
+    raise Unsupported('iterator model: expected a list iterator, got %r' % (getattr(v, 'tag', v),))
+
+
+def _elem_refs(i, st, r):
+    v = i.deref_read(st, r)
+    if isinstance(v, SymArr):
+        raise Unsupported('iteration over a symbolic-length slice')
+    off = r.win[0] if r.win is not None else 0
+    return [Ref(r.base, r.path + (k + off,)) for k in range(len(v.items))]
+
+
+@model(r'std::vec::from_elem')
+def _(i, st, a, c):
+    n = a[1]
+    if is_z3(n):
+        raise Unsupported('from_elem with symbolic length')
+    return Agg('Vec', [a[0]] * n)
+
+
+@model(r'<Vec as IntoIterator>::into_iter', r'<\[.*; \d+\] as IntoIterator>::into_iter')
+def _(i, st, a, c): return list_iter(a[0].items)
+
+
+@model(r'core::slice::<impl \[.*\]>::iter', r'core::slice::<impl \[.*\]>::iter_mut',
+       r'<&Vec as IntoIterator>::into_iter', r'<&mut Vec as IntoIterator>::into_iter',
+       r'<&\[.*\] as IntoIterator>::into_iter', r'<&mut \[.*\] as IntoIterator>::into_iter')
+def _(i, st, a, c): return list_iter(_elem_refs(i, st, a[0]))
+
+
+@model(r'<.* as Iterator>::enumerate')
+def _(i, st, a, c):
+    return list_iter([Agg('tuple', (k, x)) for k, x in enumerate(_as_list(i, st, a[0]))])
+
+
+@model(r'<.* as Iterator>::zip')
+def _(i, st, a, c):
+    return list_iter([Agg('tuple', (x, y)) for x, y in zip(_as_list(i, st, a[0]), _as_list(i, st, a[1]))])
+
+
+@model(r'<.* as Iterator>::take')
+def _(i, st, a, c):
+    n = a[1]
+    if is_z3(n):
+        raise Unsupported('take with symbolic count')
+    return list_iter(_as_list(i, st, a[0])[:n])
+
+
+@model(r'<.* as Iterator>::flatten')
+def _(i, st, a, c):
+    out = []
+    for x in _as_list(i, st, a[0]):
+        if isinstance(x, Var) and x.name == 'None':
+            continue
+        if isinstance(x, Var) and x.name == 'Some':
+            out.append(x.items[0])
+        elif isinstance(x, Agg) and x.tag in ('Vec', 'array', 'ListIter'):
+            out.extend(x.items)
+        else:
+            raise Unsupported('flatten of %r' % (x,))
+    return list_iter(out)
+
+
+def _map_items(i, st, items, clo, keep):
+    """apply closure to each item in order, threading (and forking) the state; keep(value)->list of outputs"""
+    work = [(st, [])]
+    for it in items:
+        nxt = []
+        for s, acc in work:
+            for s2, v in i.call_closure(s, clo, [it]):
+                nxt.append((s2, acc + keep(v)))
+        work = nxt
+    return work
+
+
+@model(r'<.* as Iterator>::map')
+def _(i, st, a, c):
+    res = _map_items(i, st, _as_list(i, st, a[0]), a[1], lambda v: [v])
+    return [(s, list_iter(acc)) for s, acc in res]
+
+
+def _keep_some(v):
+    if isinstance(v, Var) and v.name == 'None':
+        return []
+    if isinstance(v, Var) and v.name == 'Some':
+        return [v.items[0]]
+    raise Unsupported('filter_map closure returned %r' % (v,))
+
+
+@model(r'<.* as Iterator>::filter_map')
+def _(i, st, a, c):
+    res = _map_items(i, st, _as_list(i, st, a[0]), a[1], _keep_some)
+    return [(s, list_iter(acc)) for s, acc in res]
+
+
+@model(r'<.* as Iterator>::for_each')
+def _(i, st, a, c):
+    res = _map_items(i, st, _as_list(i, st, a[0]), a[1], lambda v: [])
+    return [(s, UNIT) for s, acc in res]
+
+
+@model(r'<.* as Iterator>::collect')
+def _(i, st, a, c): return Agg('Vec', _as_list(i, st, a[0]))
+
+
+@model(r'<.* as IntoIterator>::into_iter')
+def _(i, st, a, c):
+    v = a[0]
+    if isinstance(v, Agg) and v.tag == 'ListIter':
+        return v
+    raise Unsupported('into_iter of %r' % (getattr(v, 'tag', v),))
+
+
+@model(r'<.* as Iterator>::next')
+def list_next(i, st, a, c):
+    items = _as_list(i, st, a[0])
+    if not items:
+        return Var('None', (), 'Option')
+    i.deref_write(st, a[0], list_iter(items[1:]))
+    return Var('Some', (items[0],), 'Option')
+
+
+@model(r'<Vec as Extend>::extend', r'<Vec as Extend<.*>>::extend', r'Vec::extend')
+def _(i, st, a, c):
+    v = i.deref_read(st, a[0])
+    i.deref_write(st, a[0], Agg(v.tag, tuple(v.items) + tuple(_as_list(i, st, a[1]))))
+    return UNIT
+
+
+@model(r'<.*Scalar as PartialOrd>::partial_cmp')
+def _(i, st, a, c):
+    x = i.deref_read(st, a[0]); y = i.deref_read(st, a[1])
+    return fork_ordering(i, st, x, y, wrap_some=True)
+
+
+@model(r'DVec3::project_onto_normalized')
+def _(i, st, a, c):
+    # glam: rhs * self.dot(rhs)   (documented: rhs must be normalised)
+    v, r = a
+    return vscale('*', r, dot(v, r))
+
+
+@model(r'DVec3::reject_from')
+def _(i, st, a, c):
+    v, r = a
+    k = div_real(st, dot(v, r), dot(r, r), 'reject_from zero vector')
+    return vmap2('-', v, vscale('*', r, k))
+
+
+@model(r'DVec3::normalize_or_zero', r'DVec3::try_normalize')
+def _(i, st, a, c):
+    raise Unsupported('normalize_or_zero / try_normalize are not modelled')
+
+
+@model(r'DVec3::recip')
+def _(i, st, a, c): return Agg('DVec3', [div_real(st, Fraction(1), x) for x in a[0].items])
+
+
+@model(r'DVec3::length_recip')
+def _(i, st, a, c): return div_real(st, Fraction(1), sqrt_real(st, dot(a[0], a[0])))
+
+
+@model(r'DVec3::mul_add')
+def _(i, st, a, c): return vmap2('+', vmap2('*', a[0], a[1]), a[2])
+
+
+@model(r'core::f64::<impl f64>::mul_add', r'std::f64::<impl f64>::mul_add')
+def _(i, st, a, c): return arith('+', arith('*', a[0], a[1]), a[2])
+
+
+@model(r'core::f64::<impl f64>::powi', r'std::f64::<impl f64>::powi')
+def _(i, st, a, c):
+    n = a[1]
+    if is_z3(n) or n < 0:
+        raise Unsupported('powi with symbolic/negative exponent')
+    r = Fraction(1)
+    for _k in range(n):
+        r = arith('*', r, a[0])
+    return r
+
+
+@model(r'AABB::lower')
+def _(i, st, a, c): return i.deref_read(st, a[0]).items[0]
+
+
+@model(r'AABB::upper')
+def _(i, st, a, c): return i.deref_read(st, a[0]).items[1]
+
+
+@model(r'AABB::from_corners')
+def _(i, st, a, c): return Agg('AABB', (a[0], a[1]))
+
+
+@model(r'AABB::from_point')
+def _(i, st, a, c): return Agg('AABB', (a[0], a[0]))
+
+
+def _fork_bool(i, st, b):
+    """[(state, concrete bool)] for a possibly symbolic boolean"""
+    if isinstance(b, bool):
+        return [(st, b)]
+    out = []
+    for val, cond in ((True, b), (False, z3.Not(b))):
+        if i.feasible(st, cond):
+            s2 = st.fork()
+            s2.pc.append(cond)
+            out.append((s2, val))
+    return out
+
+
+@model(r'Option::filter')
+def _(i, st, a, c):
+    opt, clo = a
+    if opt.name == 'None':
+        return opt
+    hid = ('filter', id(opt))
+    from .interp import _heap_ids
+    h = next(_heap_ids)
+    st.heap[h] = opt.items[0]
+    out = []
+    for s2, r in i.call_closure(st, clo, [Ref(('H', h))]):
+        for s3, bv in _fork_bool(i, s2, r):
+            out.append((s3, opt if bv else Var('None', (), 'Option')))
+    return out
+
+
+def _any_all(i, st, items, clo, want):
+    """short-circuit any (want=True) / all (want=False is the stopping value)"""
+    work = [(st, 0)]
+    out = []
+    while work:
+        s, k = work.pop()
+        if k == len(items):
+            out.append((s, not want))
+            continue
+        for s2, r in i.call_closure(s, clo, [items[k]]):
+            for s3, bv in _fork_bool(i, s2, r):
+                if bv == want:
+                    out.append((s3, want))
+                else:
+                    work.append((s3, k + 1))
+    return out
+
+
+@model(r'<.* as Iterator>::any')
+def _(i, st, a, c):
+    items = _as_list(i, st, a[0])
+    if isinstance(a[0], Ref):
+        i.deref_write(st, a[0], list_iter([]))
+    return _any_all(i, st, items, a[1], True)
+
+
+@model(r'<.* as Iterator>::all')
+def _(i, st, a, c):
+    items = _as_list(i, st, a[0])
+    if isinstance(a[0], Ref):
+        i.deref_write(st, a[0], list_iter([]))
+    return _any_all(i, st, items, a[1], False)
